@@ -7,6 +7,20 @@ HERE = os.path.dirname(os.path.dirname(os.path.abspath(__file__)))
 
 # property -> (technique, level text, level note, design ref)
 CLAIMED = {
+    "C16": (
+        "effect summaries of every mutator/copier of ItemAttributeList checked with "
+        "must-pass-through queries on the per-method CFG; decision-table check of the collision "
+        "loop, __getattr__ and _get_item_key",
+        "Decides that each operation of the property's list (append, insert, extend, remove, "
+        "pop, clear, copy, deepcopy, pickle) updates the list view and the name view together on "
+        "every path, for the same item; that a removal deletes exactly one name selected by "
+        "comparison with the removed object; that a new name is made unique against item names "
+        "and the list's own attributes; and that copies never alias the name dictionary. Since "
+        "each rule holds for all paths of one operation, it holds after any history of them.",
+        "Not decided: consistency is not executed over histories; list operations outside the "
+        "property's list (__setitem__, __delitem__, +=, sort) are not covered. Trusted: the idiom "
+        "recognisers in sa/rules/c16.py.",
+        "DESIGN.md section 3, C16"),
     "C12": (
         "decision-table extraction of the PCI dispatch in decode_rx_frame compared with ISO "
         "15765-2, whole-package index discipline of the per-ID state arrays, regex-AST group "
